@@ -535,13 +535,14 @@ Section Release.
 
   (** ** the nodes made by the update *)
 
-  Lemma gd_new_nth : forall (s : state) lr ps base k nd,
-      nth_error (gd_new O s lr base ps) k = Some nd ->
+  Lemma gd_new_f_nth : forall (s : state) lr pf base k nd,
+      nth_error (gd_new_f O s lr base pf) k = Some nd ->
       n_children nd = [] /\ p_bop (n_pay nd) = None /\ p_buf (n_pay nd) = base + k.
   Proof.
-    intros s lr ps. induction ps as [|h ps IH]; intros base k nd H.
+    intros s lr pf. induction pf as [|[h fb] pf IH]; intros base k nd H.
     - destruct k; discriminate H.
-    - cbn [gd_new] in H. destruct (h_node s h) as [nd0|]; [destruct (n_grad nd0) as [g0|] |].
+    - cbn [gd_new_f] in H. destruct fb; [apply IH; exact H |].
+      destruct (h_node s h) as [nd0|]; [destruct (n_grad nd0) as [g0|] |].
       + destruct k as [|k].
         * injection H as H. subst nd. cbn. rewrite Nat.add_0_r. auto.
         * cbn [nth_error] in H. destruct (IH (S base) k nd H) as (H1 & H2 & H3).
@@ -549,6 +550,11 @@ Section Release.
       + apply IH. exact H.
       + apply IH. exact H.
   Qed.
+
+  Lemma gd_new_nth : forall (s : state) lr ps base k nd,
+      nth_error (gd_new O s lr base ps) k = Some nd ->
+      n_children nd = [] /\ p_bop (n_pay nd) = None /\ p_buf (n_pay nd) = base + k.
+  Proof. intros s lr ps base k nd H. apply (gd_new_f_nth s lr (flagged s ps) base k nd H). Qed.
 
   Lemma model_update_nodes : forall s2 s3,
       armed s2 -> model_update O s2 = Some s3 ->
